@@ -29,12 +29,83 @@ func checkC07(r *Run) {
 	r.Rule("C07.R1.exist", "NewStream validates channel existence (successfully) before it opens peers or builds stages; the validators accept only complete matches", 5)
 	r.Rule("C07.R2.sync", "all receivers route only into the synchronizer, which counts unique leaseholders and emits the merged response", 8)
 	r.Rule("C07.R3.sender", "BatchSwitchSender.send and confluence.BatchSwitch both remove a target's entry after sending to it", 2)
+	r.Rule("C07.R5.broadcast", "the writer's peer switch addresses every peer for every command when acknowledgements are synchronous (the synchronizer counts one response per leaseholder)", 1)
 	r.Rule("C07.R4.mask", "every range over Frame.RawKeys()/RawSeries() calls ShouldExcludeRaw on the loop index", 8)
 
 	checkExistenceGates(r, p)
 	checkSynchronizers(r, p)
 	checkSenderForgets(r, p)
 	checkMaskDiscipline(r, p)
+	checkPeerBroadcast(r, p)
+}
+
+// checkPeerBroadcast decides C07.R5: the synchronizer waits for one acknowledgement per
+// leaseholder; in sync mode every request - a Write with a partial frame included - must
+// therefore be addressed to every peer of the writer.
+func checkPeerBroadcast(r *Run, p *Prog) {
+	const wpkg = "synnax/pkg/distribution/framer/writer"
+	fn := p.Func(wpkg, "peerSwitchSender", "_switch")
+	if fn == nil {
+		r.Undecide("C07.R5: writer.peerSwitchSender._switch not found")
+		return
+	}
+	out := paramObj(fn, 2)
+	c := p.CFG(fn)
+	goals := map[ast.Expr]bool{}
+	inspectNoLit(fn.Body, func(x ast.Node) bool {
+		rng, ok := x.(*ast.RangeStmt)
+		if !ok {
+			return true
+		}
+		sel, ok := ast.Unparen(rng.X).(*ast.SelectorExpr)
+		if !ok || sel.Sel.Name != "addresses" {
+			return true
+		}
+		stores := false
+		inspectNoLit(rng.Body, func(y ast.Node) bool {
+			if as, ok := y.(*ast.AssignStmt); ok {
+				for _, l := range as.Lhs {
+					if ix, ok := ast.Unparen(l).(*ast.IndexExpr); ok && objOf(fn, ix.X) == out {
+						stores = true
+					}
+				}
+			}
+			return true
+		})
+		early := false
+		inspectNoLit(rng.Body, func(y ast.Node) bool {
+			switch v := y.(type) {
+			case *ast.BranchStmt:
+				if v.Tok == token.BREAK || v.Tok == token.GOTO {
+					early = true
+				}
+			case *ast.ReturnStmt:
+				early = true
+			}
+			return true
+		})
+		if stores && !early {
+			goals[rng.X] = true
+		}
+		return true
+	})
+	notSync := c.EdgesEstablishing(func(atom ast.Expr, val bool) bool {
+		sel, ok := ast.Unparen(atom).(*ast.SelectorExpr)
+		return ok && sel.Sel.Name == "sync" && !val
+	})
+	isGoal := func(n ast.Node) bool {
+		e, ok := n.(ast.Expr)
+		return ok && goals[e]
+	}
+	q, vis := c.ReachAvoiding([]Point{c.Entry()}, notSync, isGoal)
+	var path []string
+	for _, ex := range c.Exits() {
+		if vis[ex.P] {
+			path = q.PathTo(ex.P)
+		}
+	}
+	r.ObPath("C07.R5.broadcast", "every request of a synchronous writer is addressed to every peer", p.Position(fn.Pos()), path == nil && len(goals) > 0,
+		"a path through _switch (with sync acknowledgements on) returns without ranging over all peer addresses: the synchronizer waits for a leaseholder that was never asked and Write blocks", path)
 }
 
 func checkExistenceGates(r *Run, p *Prog) {
